@@ -11,7 +11,7 @@
 From Coq Require Import List NArith Bool Arith.
 From GQ Require Import Lib.Key Model.C18 Proofs.C18_Base Proofs.C18_Ext Proofs.C18_Insert
   Proofs.C18_Delete Proofs.C18_History Proofs.C18_Merkle Proofs.C18_Derive Proofs.C18_Main
-  Proofs.C18_Copy Proofs.C18_Range Proofs.C18_Db.
+  Proofs.C18_Copy Proofs.C18_Range Proofs.C18_Db Proofs.C18_Stack Proofs.C18_StackMain.
 Import ListNotations.
 
 (* (1) trie.go:insert never panics, keeps the canonical form, stores the value and leaves every
@@ -295,3 +295,79 @@ Example derive_order_nonvacuous :
   derive_order 130 = (nrange 1 127 ++ [0] ++ [128; 129])%N /\
   map rlp_uint [127; 0; 128; 256]%N = [[127]; [128]; [129; 128]; [130; 1; 0]]%N.
 Proof. vm_compute. split; reflexivity. Qed.
+
+(* ================= extension round: StackTrie (trie/stacktrie.go) =================
+   [snode]/[st_insert]/[st_run] model the streaming hasher behind DeriveSha; [to_node s] is the trie a
+   StackTrie s stands for (hashed subtrees are kept as ghosts); [on_spine s last]: the key inserted
+   last runs along the rightmost path of s, nothing on it is hashed and no branch on it has a child
+   right of it; [div_lt a b]: a < b in bytes.Compare order and neither is a prefix of the other;
+   [chain_div ks]: consecutive keys of ks satisfy div_lt; [nib k]: k consists of nibbles;
+   [okkv]: the key is a byte string and the value is not empty. *)
+
+(* (29) one StackTrie insertion that does not panic is exactly one trie.go:insert on the trie it stands
+   for -- for every StackTrie state and every key, in whatever order the keys come. *)
+Theorem stacktrie_insert_refines_trie_insert : forall v s key s',
+  st_insert s key v = Some s' ->
+  insert (to_node s) (key ++ [16%N]) (Val v) = Some (to_node s').
+Proof. exact st_insert_sim. Qed.
+Print Assumptions stacktrie_insert_refines_trie_insert.
+
+(* (30) a key that diverges upwards from the key inserted last never panics (never reaches a hashed
+   node, an existing key or an index out of range) and re-establishes the spine invariant. *)
+Theorem stacktrie_ascending_insert_never_panics : forall v s last, on_spine s last ->
+  forall key, div_lt last key = true -> nib last -> nib key ->
+  exists s', st_insert s key v = Some s' /\ on_spine s' key.
+Proof. exact st_insert_ascending. Qed.
+Print Assumptions stacktrie_ascending_insert_never_panics.
+
+(* (31) for EVERY ascending prefix-free list of any length: the StackTrie runs without panic and stands
+   for exactly the tree trie.Trie builds from the same list. *)
+Theorem stacktrie_equals_trie_on_ascending_lists : forall l,
+  Forall okkv l -> chain_div (map fst l) = true ->
+  exists s, st_run SE l = Some s /\ run Nil l = Some (to_node s).
+Proof. exact stack_equals_trie_lemma. Qed.
+Print Assumptions stacktrie_equals_trie_on_ascending_lists.
+
+(* (32) ... and for the tree ANY history with the same final content builds (inserts in another order,
+   overwrites, deletes): same tree, same root under every hash function. *)
+Theorem stacktrie_agrees_with_any_history : forall l h,
+  Forall okkv l -> chain_div (map fst l) = true -> wf_hist h ->
+  (forall k, wf_bytes k -> apply_hist (fun _ => []) l k = apply_hist (fun _ => []) h k) ->
+  exists s t, st_run SE l = Some s /\ run Nil h = Some t /\ to_node s = t /\
+    forall (A : Type) (root : node -> A), root (to_node s) = root t.
+Proof. exact stack_vs_any_history. Qed.
+Print Assumptions stacktrie_agrees_with_any_history.
+
+(* (33) the order matters: returning to a subtree that was left, a repeated key and a key that extends
+   another one panic (replayed on the real StackTrie by the corpus cases return-to-hashed,
+   repeated-key, extension-of-key). *)
+Theorem stacktrie_unordered_refuted :
+  st_run SE [([16], [1]); ([32], [1]); ([17], [2])]%N = None /\
+  st_run SE [([1], [1]); ([1], [2])]%N = None /\
+  st_run SE [([1], [1]); ([1; 0], [2])]%N = None.
+Proof. exact stack_order_needed. Qed.
+Print Assumptions stacktrie_unordered_refuted.
+
+(* (34) DeriveSha through the StackTrie = DeriveSha through the full trie, for every list of non-empty
+   items.  Full statement: all n < 2^64; the ascending order of the rlp(i) keys is discharged by
+   computation for n <= asc_bound (see derive_sha_keys_ascending_partial), everything else is general. *)
+Theorem derive_sha_stacktrie_equals_trie_partial : forall (item : N -> list N) n,
+  (n <= asc_bound)%N -> (forall i, (i < n)%N -> item i <> []) ->
+  exists s, st_run SE (derive_list item n) = Some s /\
+            run Nil (derive_list item n) = Some (to_node s).
+Proof. exact derive_stack_lemma. Qed.
+Print Assumptions derive_sha_stacktrie_equals_trie_partial.
+
+(* three ascending keys: leaf split under a common nibble, then a new branch child; the first two
+   subtrees are hashed by then *)
+Example stacktrie_nonvacuous :
+  Forall okkv [([18], [1]); ([19], [2]); ([32], [3])]%N /\
+  chain_div [[18]; [19]; [32]]%N = true /\
+  st_run SE [([18], [1]); ([19], [2]); ([32], [3])]%N
+  = Some (SB [SE; SH (Full [Nil; Nil; Short [16%N] (Val [1%N]); Short [16%N] (Val [2%N]);
+                            Nil; Nil; Nil; Nil; Nil; Nil; Nil; Nil; Nil; Nil; Nil; Nil; Nil]);
+              SL [0%N] [3%N]; SE; SE; SE; SE; SE; SE; SE; SE; SE; SE; SE; SE; SE]).
+Proof.
+  split; [|split; vm_compute; reflexivity].
+  repeat constructor; cbn; try discriminate; vm_compute; reflexivity.
+Qed.
